@@ -329,6 +329,26 @@ theorem splits_changed_only_by (c : Nat → Int) (w : Watch) (op : Op)
     op = .start ∨ op = .enter ∨ op = .restart ∨ op = .split := by
   sw_cases w <;> cases op <;> simp_all [step, doElapsed, doStop, doStart]
 
+/-! ### the context-manager protocol
+
+`__exit__(type, value, tb)` is one operation of the model whatever exception is in flight: the
+driver maps `exit:<ExceptionType>` to `.exit`, and the correspondence runs the real `__exit__`
+with exceptions of several kinds (KeyboardInterrupt, SystemExit, GeneratorExit, Exception
+subclasses, a custom BaseException). -/
+
+/-- leaving the `with` block never raises, never leaves the watch running, and freezes the
+    elapsed time at the exit instant when the watch was running -/
+theorem exit_stops (c : Nat → Int) (w : Watch) :
+    (step c w .exit).2 = .noneVal ∧ (step c w .exit).1.state ≠ .started ∧
+    (w.state = .started → (step c w .exit).1.state = .stopped ∧
+      (step c w .exit).1.stoppedAt = some (c w.reads)) ∧
+    (w.state ≠ .started → (step c w .exit).1 = w) := by
+  sw_cases w <;> simp_all [step, doStop]
+
+/-- entering the `with` block is `start` -/
+theorem enter_is_start (c : Nat → Int) (w : Watch) : step c w .enter = step c w .start := by
+  simp [step]
+
 /-! ### non-vacuity: a concrete reachable watch meeting the hypotheses above -/
 
 example :
